@@ -27,7 +27,7 @@ import (
 
 type reinitStats struct {
 	Ops, Scenarios, Reinits, HashEdits, HashEditKinds int
-	ReinitCrashEffects, ReinitCrashRuns              int
+	ReinitCrashEffects, ReinitCrashRuns               int
 	OutcomeHist                                       map[string]int
 	Monitors, Notes, Samples                          []string
 }
@@ -81,8 +81,8 @@ func roundPublic(n *vnode, round string) string {
 	return fmt.Sprintf("state=%s thr=%d/%d poly=%x parts=[%s]", d.State, d.Payload.Threshold, thr, d.Payload.DKGProposalPayload.PubPolyBz, strings.Join(parts, ","))
 }
 
-func (r *reinitRun) scenario(outDir string, n, t int, interleave, junk, adapt bool) {
-	tag := fmt.Sprintf("(n=%d,t=%d interleaved=%v junk=%v adapt=%v)", n, t, interleave, junk, adapt)
+func (r *reinitRun) scenario(outDir string, n, t int, interleave, junk, adapt, blankIDs bool) {
+	tag := fmt.Sprintf("(n=%d,t=%d interleaved=%v junk=%v adapt=%v blank-ids=%v)", n, t, interleave, junk, adapt, blankIDs)
 	dir, _ := os.MkdirTemp(outDir, "reinit")
 	defer os.RemoveAll(dir)
 	// the original ceremony
@@ -155,6 +155,12 @@ func (r *reinitRun) scenario(outDir string, n, t int, interleave, junk, adapt bo
 			stripped = append(stripped, m)
 		}
 		dump = stripped
+	}
+	if blankIDs {
+		// a dump exported from a Kafka board: messages posted from airgapped results carry no id there
+		for i := range dump {
+			dump[i].ID = ""
+		}
 	}
 	// the new installation
 	b, err := newCluster(filepath.Join(dir, "B"), n, "pw")
@@ -416,15 +422,15 @@ func runReinitDiff(outDir string, seed int64, tier string) {
 	r := &reinitRun{st: &reinitStats{OutcomeHist: map[string]int{}}, ops: bufio.NewWriterSize(fo, 1<<20), obs: bufio.NewWriterSize(fb, 1<<20),
 		rng: rand.New(rand.NewSource(seed)), tier: tier}
 	type cfg struct {
-		n, t                    int
-		interleave, junk, adapt bool
+		n, t                              int
+		interleave, junk, adapt, blankIDs bool
 	}
-	cfgs := []cfg{{3, 2, false, false, false}, {2, 2, true, true, false}, {3, 2, false, true, true}}
+	cfgs := []cfg{{3, 2, false, false, false, true}, {2, 2, true, true, false, false}, {3, 2, false, true, true, false}}
 	if tier == "thorough" {
-		cfgs = append(cfgs, cfg{4, 3, true, true, false}, cfg{3, 3, true, false, true}, cfg{5, 2, false, false, false}, cfg{4, 2, true, true, true})
+		cfgs = append(cfgs, cfg{4, 3, true, true, false, false}, cfg{3, 3, true, false, true, true}, cfg{5, 2, false, false, false, false}, cfg{4, 2, true, true, true, false}, cfg{3, 2, false, false, false, false})
 	}
 	for _, c := range cfgs {
-		r.scenario(outDir, c.n, c.t, c.interleave, c.junk, c.adapt)
+		r.scenario(outDir, c.n, c.t, c.interleave, c.junk, c.adapt, c.blankIDs)
 	}
 	r.crashInReinit(outDir, 2, 2, tier == "thorough")
 	if tier == "thorough" {
